@@ -1,5 +1,7 @@
 import Pyunicorn.Model.Window
-/-! Helper lemmas for C13 (core Lean only). -/
+import Pyunicorn.Lemmas.WindowIeee
+/-! Helper lemmas for C13 (core Lean tactics; Mathlib only enters through the IEEE lemma
+`rangeYearsF_eq` of `Lemmas/WindowIeee.lean`). -/
 namespace Pyunicorn.Window
 
 variable {α β : Type}
@@ -647,11 +649,11 @@ theorem foldl_rowAssign (c ry : Nat) (k : Nat) (hk : k ≤ c) :
     simp
 
 /-- the loop of `phase_indices()` never fails for a positive cycle and computes the closed form -/
-theorem phaseIndicesLoop_eq (c T : Nat) (hc : 0 < c) :
+theorem phaseIndicesLoop_eq (c T : Nat) (hc : 0 < c) (hT : T < 2 ^ 53) :
     phaseIndicesLoop c T
       = .ok ((List.range c).map fun i => (List.range (T / c)).map fun y => i + y * c) := by
   unfold phaseIndicesLoop
-  simp only [Nat.ne_of_gt hc, if_false]
+  simp only [Nat.ne_of_gt hc, if_false, rangeYearsF_eq T c hc hT]
   rw [foldl_rowAssign c (T / c) c (Nat.le_refl c)]
   simp
 
@@ -707,23 +709,23 @@ theorem toNat_emod_lt (c : Nat) (hc : 0 < c) (p : Int) : (p % (c : Int)).toNat <
   omega
 
 /-- valid integer phase numbers: the result is that of the wrapped natural numbers -/
-theorem selectedI_valid (c T : Nat) (hc : 0 < c) (sel : List Int)
+theorem selectedI_valid (c T : Nat) (hc : 0 < c) (hT : T < 2 ^ 53) (sel : List Int)
     (h : ∀ p ∈ sel, -(c : Int) ≤ p ∧ p < (c : Int)) :
     indicesSelectedPhasesI c T sel
       = indicesSelectedPhases c T (sel.map fun p => (p % (c : Int)).toNat) := by
   unfold indicesSelectedPhasesI indicesSelectedPhases
-  rw [phaseIndicesLoop_eq c T hc, normAll_valid c sel h]
+  rw [phaseIndicesLoop_eq c T hc hT, normAll_valid c sel h]
   have hall : ((sel.map fun p => (p % (c : Int)).toNat).all (· < c)) = true := by
     simp only [List.all_eq_true, decide_eq_true_eq, List.mem_map]
     rintro _ ⟨p, _, rfl⟩
     exact toNat_emod_lt c hc p
   simp only [Res.bind, phaseIndices, Nat.ne_of_gt hc, if_false, hall, if_true]
 
-theorem selectedI_invalid (c T : Nat) (hc : 0 < c) (sel : List Int)
+theorem selectedI_invalid (c T : Nat) (hc : 0 < c) (hT : T < 2 ^ 53) (sel : List Int)
     (h : ∃ p ∈ sel, p < -(c : Int) ∨ (c : Int) ≤ p) :
     indicesSelectedPhasesI c T sel = .indexError := by
   unfold indicesSelectedPhasesI
-  rw [phaseIndicesLoop_eq c T hc, normAll_invalid c sel h]
+  rw [phaseIndicesLoop_eq c T hc hT, normAll_invalid c sel h]
   rfl
 
 /-- membership in the result of `indices_selected_phases`: exactly the indices of the
